@@ -530,4 +530,23 @@ theorem C12_decoder_no_empty_chunks {σ : Type} (c : Codec σ) (s : σ) (items :
     (h : Item.chunk b ∈ decodeItems c s items) : b ≠ [] :=
   decodeItems_nonempty c items s b h
 
+/-- **C12_mp_limit_by_part_name**: the per-field limit that governs a part is the one `limit()`
+returns for the part's own (wire) name: a form consisting of parts of one name `n` with
+`limitOf n = some L` is accepted only if their bytes sum to at most `L`, whatever other names the
+table knows. -/
+theorem C12_mp_limit_by_part_name (limitOf : String → Option Nat) (total memory : Nat)
+    (fs : List Field) (hnd : ∀ f ∈ fs, f.kind ≠ .deny) (n : String) (L : Nat)
+    (hL : limitOf n = some L) (hok : (multipartForm limitOf total memory fs).1 = .ok) :
+    sumName n fs ≤ L :=
+  ((C12_mp_form_iff limitOf total memory fs hnd).mp hok).2.2 n L hL
+
+/-- **witness_limit_keyed_by_wire_name** (seed C12-r3-1): a 17-byte part named `payload[]` against
+a 16-byte field limit.  With the table keyed by the wire name the form is refused at that part;
+a table keyed by the Rust identifier (`payload`) lets the same request through. -/
+theorem witness_limit_keyed_by_wire_name :
+    (multipartForm (fun n => if n = "payload[]" then some 16 else none) 1000 1000
+      [⟨"payload[]", .memory, [17]⟩]).1 = .overflow 0 ∧
+    (multipartForm (fun n => if n = "payload" then some 16 else none) 1000 1000
+      [⟨"payload[]", .memory, [17]⟩]).1 = .ok := by decide
+
 end ActixModel.Collect.C12
